@@ -38,9 +38,9 @@ def gen_cases(tier, seed):
     cases = []
     # ("uhf", "restricted-open"): restricted walkers (norb x n_up) with an open-shell trial, the beta block is their first n_dn columns
     combos = [("rhf", "restricted"), ("uhf", "unrestricted"), ("noci", "unrestricted"), ("ucisd", "unrestricted"), ("uhf", "cpmc"), ("ghf", "cpmc_slow"),
-              ("uhf", "restricted-open"), ("uhf", "cpmc-tiny")]
+              ("uhf", "restricted-open"), ("uhf", "cpmc-tiny"), ("ghf", "cpmc")]
     if not q:
-        combos += [("uhf", "restricted"), ("cisd", "restricted"), ("ghf", "cpmc"), ("uhf", "cpmc_slow"), ("multislater", "unrestricted"), ("noci", "restricted-open"),
+        combos += [("uhf", "restricted"), ("cisd", "restricted"), ("uhf", "cpmc_slow"), ("multislater", "unrestricted"), ("noci", "restricted-open"),
                    ("ghf", "restricted-open"), ("ghf", "cpmc-tiny")]
     for (kind, p) in combos:
         for rep in range(1 if q else 4):
@@ -79,7 +79,7 @@ def _system(case, rng, nw):
     n, na, nb, u = 4, 2, 2, 4.0
     a, b = hubbard.trial_orbitals(rng, k, na, nb, "afm")
     # "cpmc-tiny": un-normalised trial orbitals - the absolute scale of the overlap is unphysical (here ~1e-9), ratios are what matter
-    sc = 0.0074 if p == "cpmc-tiny" else 1.0
+    sc = (0.0074 if case["s"] % 2 else 2.0e-4) if p == "cpmc-tiny" else 1.0   # overlaps ~1e-9 or ~1e-15
     if case["kind"] == "ghf":
         trial = wavefunctions.ghf_cpmc(n, (na, nb))
         wd = {"mo_coeff": jnp.array(sc * hubbard.ghf_from_uhf(a, b, 0.6))}
